@@ -31,7 +31,7 @@ CLAIMED = {
    technique="TLA+ abstract machine + TLC exhaustive family with spelling-equivalence invariant, replay, TLC trace validation",
    ref="DESIGN.md section 5, C01"),
  "C02": dict(
-   text="MC 1: for every composition of 15 tail contexts (depth<=1 quick, <=2 thorough) x 6 loop shapes x direct/apply call, the NON-TERMINATING loop with an abstract counter has a finite reachable state graph on Machine.tla (abstract GC) and Len(kont)<=4 in every state - bounded continuation for all iteration counts; a machine that keeps a frame for an if arm must be rejected. MC 2: the terminating members return N (TailResultLaw) and TLC prints the abstract continuation depth at every probe. Replay: every member at N=0,1,3 with rule R-space (same probe site + equal abstract continuation => native stack address within 1 KiB and live heap within 4 KiB from the second visit on), and at N=1e5 (result = N, stack spread <= 16 KiB, heap spread <= 64 KiB).",
+   text="MC 1: for every composition of 15 tail contexts (depth<=1 quick, <=2 thorough) x 8 loop shapes (incl. a closure built per turn and a closure over the caller's frame passed as an operand) x direct/apply call, the NON-TERMINATING loop with an abstract counter has a finite reachable state graph on Machine.tla (abstract GC) and Len(kont)<=4 in every state - bounded continuation for all iteration counts; a machine that keeps a frame for an if arm must be rejected. MC 2: the terminating members return N (TailResultLaw) and TLC prints the abstract continuation depth at every probe. Replay: every member at N=0,1,3 with rule R-space (same probe site + equal abstract continuation => native stack address within 1 KiB and live heap within 4 KiB from the second visit on), and at N=1e5 (result = N, stack spread <= 16 KiB, heap spread <= 64 KiB).",
    note="The absolute stack/heap figures are observations of the harness (address of a local in a host procedure, per-thread counting allocator minus the harness's own logs) tied to the specification by R-space; slacks are >=100x below one frame per iteration. Non-termination and deep non-tail recursion are outside the claim.",
    technique="TLA+ abstract machine with abstract GC: TLC finite-graph check of non-terminating loops; replay with resource refinement rule",
    ref="DESIGN.md section 5, C02"),
@@ -77,7 +77,7 @@ CLAIMED = {
    ref="DESIGN.md section 5, C07"),
  "C18": dict(
    text="Repl.tla models the loop over input lines (pending text, submissions); 'closed' is defined through the specification's reader (the text lexes and its nesting depth is <= 0). TLC checks on the specification that a form is submitted exactly with its last line for every split inside lists (MCRepl; the model checker showed that a break at depth 0, e.g. after a quote mark, ends a submission by the statement itself). The REPL's own completeness test (hook H1) is swept over every string up to length 5 (6 thorough) over the alphabet ( ) \" ; newline # \\ | a space and judged by ReplTrace.tla. Random form sequences incl. failing forms are fed to the built binary over a pipe under 3 random line splittings (comments with parentheses and quotes at line ends, empty lines); ReplTrace.tla re-runs Repl.tla on the lines (submission boundaries, tokens of each submission) and compares stdout/stderr with the transcript of the same forms evaluated one after another through the library interface.",
-   note="Trusted: pipe driver (banner and farewell stripped, stdout and stderr compared separately), format!/error Display as the printed forms. Sessions are kept small (forms <= 160 characters) because the trace specification re-lexes the pending text at every line. Unterminated strings/|identifiers| at a line break are outside the claim.",
+   note="Trusted: pipe driver (banner and farewell stripped, stdout and stderr compared separately), format!/error Display as the printed forms. Sessions are kept small (forms <= 160 characters) because the trace specification re-lexes the pending text at every line. Strings and |identifiers| that span a line break INSIDE an open list are exercised; an unterminated string or |identifier| at nesting depth 0 at a line break is outside the claim.",
    technique="TLA+ REPL state machine over the reader specification, TLC law checking, TLC trace validation of the hook sweep and of binary sessions",
    ref="DESIGN.md section 5, C18"),
  "C17": dict(
@@ -92,7 +92,7 @@ CLAIMED = {
    ref="DESIGN.md section 5, C19"),
  "C13": dict(
    text="MCLibs.tla adds a module system to the reference machine: a library instance is a root frame without parent holding its imports and definitions, created by the first import and shared afterwards; importing binds the exported external names to the instance's values. TLC explores every program of one import declaration (5 variants incl. the same library twice under a prefix and a library importing the stateful one) followed by up to 3 (4 thorough) of 13 operations and checks OneInstance, ExportedOnly, LibraryFramesAreRoots and SharedState (peek equals the number of successful bumps through any importer); the model that re-evaluates a library per import - the implementation as found - must be rejected. Every explored program (plus TLC -simulate walks of 12 operations) is replayed with the libraries as registered sources and as .sld files in the program directory.",
-   note="Trusted: rendering of the TLA+ library definitions to define-library text, projection. Imports precede all other forms. Mutation of an exported variable itself (as opposed to state behind exported procedures) is not exercised.",
+   note="Trusted: rendering of the TLA+ library definitions to define-library text, projection. Imports precede all other forms. A second family (patch) has libraries that assign names they imported; histories on which the implementation refuses such an assignment are not judged. Mutation of an exported variable by the importer is not exercised.",
    technique="TLA+ module-system model over the abstract machine, invariants checked by TLC on all small programs, replay of every explored history",
    ref="DESIGN.md section 5, C13"),
  "C15": dict(
